@@ -157,6 +157,41 @@ def run(ctx: Ctx, env):
                     ctx.fail("R1.path-actions-total", f"{p.name}|{ev.data.get('attr')}", f"path production `{p}` reads .{ev.data.get('attr')} on a value that can be "
                              f"{ev.data.get('kinds')}", ev.where, "a/b/c/any()")
 
+    # a path has any number of segments: a node built from a fixed number of reads of single fields cannot hold them all. Every
+    # Attribute / CollectionLambda owner an action builds from a path that may itself be an Attribute must contain a part that stands
+    # for arbitrarily many segments - elements of a list built by walking the path, or an embedded sub-path
+    from ..values import AbsList as _AL, ListV as _LV, MapV as _MV, NewNode as _NN, PyList as _PL
+    import re as _re
+
+    def unbounded(v, depth=0) -> bool:
+        if isinstance(v, _NN):
+            return any(unbounded(f, depth + 1) for f in v.fields.values())
+        if isinstance(v, NodeV):
+            return "Attribute" in v.kinds or "[*]" in _re.sub(r"__descent_\d+\[\*\]", "", v.path)
+        if isinstance(v, (_AL, _LV, _MV)):
+            return True
+        if isinstance(v, _PL):
+            return bool(v.loop_parts)
+        r = _re.sub(r"__descent_\d+\[\*\]", "", repr(v))  # the node a descent loop stops at is one node, not many
+        return "[*]" in r or "wlitem" in r or "elemof" in r or "iterated" in r or "annotated(" in r
+    n_owner = 0
+    for p in env.grammar.productions:
+        if not ("path" in p.name or "navigation" in " ".join(p.syms)):
+            continue
+        for x in kf.prod_paths.get(p.index, []):
+            if x.outcome != "return" or not isinstance(x.value, _NN) or x.value.cls not in ("Attribute", "CollectionLambda"):
+                continue
+            # does this path of the action start from a sub-path of unknown depth?
+            deep_in = any(k.startswith("isinstance(") and "Attribute" in k and v is True for k, v in x.conds)
+            if not deep_in:
+                continue
+            n_owner += 1
+            own = x.value.fields.get("owner")
+            ctx.check(unbounded(own), "R1.path-keeps-every-segment", f"{p.name}|{x.value.cls}|{x.cond_str()[:60]}",
+                      f"`{p}` builds the owner `{own!r:.160}` from a fixed number of single fields although the path it starts from can be arbitrarily "
+                      "long: segments in the middle are lost", gm.loc(p.func), "a/b/c/d/any(x: x/e eq 1)")
+    ctx.analysed["path-building action paths"] = n_owner
+
     # ---- (2)(3) quantifiers ------------------------------------------------------------------------------------------------
     ex = _installed_init_params("django.db.models.expressions", "Exists")
     if ex is None:
